@@ -62,7 +62,7 @@ def generate(rng, tier):
     maxlen = 3 if tier == "quick" else 4
     for n in range(1, maxlen + 1):
         combos = list(itertools.product(opts, repeat=n))
-        limit = 2500 if tier == "quick" else 40000
+        limit = 2500 if tier == "quick" else 150000
         if len(combos) > limit:
             combos = rng.sample(combos, limit)
         for combo in combos:
@@ -71,7 +71,7 @@ def generate(rng, tier):
             k = rng.choice([0, 0, 1, 4])
             yield genutil.gen_line(dsx, "-", ("1", "0", "1", str(k), "0"), 0, [b"".join(pk)]), f"exhaustive-len{n}"
     # wrap-around groups and long random histories
-    for _ in range(150 if tier == "quick" else 2000):
+    for _ in range(150 if tier == "quick" else 20000):
         n = rng.randrange(3, 41)
         spec = []
         for _ in range(n):
